@@ -364,8 +364,10 @@ func (o *OperationNormalizer) setupOperationWalkers() {
 
 	if o.options.extractVariables {
 		variablesProcessing := astvisitor.NewWalkerWithID(8, "VariablesProcessing")
-		inputCoercionForList(&variablesProcessing)
+		// the default value of an absent variable has to be in the variables
+		// before the lists are coerced, otherwise it is left uncoerced
 		extractVariablesDefaultValue(&variablesProcessing)
+		inputCoercionForList(&variablesProcessing)
 		injectInputFieldDefaults(&variablesProcessing)
 
 		o.operationWalkers = append(o.operationWalkers, walkerStage{
